@@ -26,7 +26,7 @@ CHECKS = {
          "DESIGN.md §5 C10"),
  "C18": ("exploration",
          "runtime monitor over harness-written manifests: directory-name refusal, containment of every lookup answer, inverse and stability of forward / reverse lookups, refusal of foreign paths",
-         "Field-wise manifests (exhaustive over a 30-name hostile directory alphabet x 3 shapes incl. aliases of equal length), PRNG manifests and structure- / byte-mutated manifests of real builds are written into a bundle root; whenever OpenDir accepts one, the four clauses of the property are checked over all listed packages and registry versions, 15 in-package path shapes (5 of them through links that exist on disk below the package directory, 2 with a back-slash in a name) in two spellings and 7 foreign paths plus, per package directory, a back-slash neighbour and the names differing from it only in case; every listed package is also looked up through text with 8 hostile sub-paths and through addresses derived by relative resolution with 6 climbing operands. 264 documents kept by coverage-guided fuzzing campaigns are replayed; thorough adds a native go test -fuzz run of OpenDir with the lookup assertions. Round 6/7: relative reverse lookups after the working directory moved since OpenDir; path tails that are not in a Unicode normal form.",
+         "Field-wise manifests (exhaustive over a 30-name hostile directory alphabet x 3 shapes incl. aliases of equal length), PRNG manifests and structure- / byte-mutated manifests of real builds are written into a bundle root; whenever OpenDir accepts one, the four clauses of the property are checked over all listed packages and registry versions, 15 in-package path shapes (5 of them through links that exist on disk below the package directory, 2 with a back-slash in a name) in two spellings and 7 foreign paths plus, per package directory, a back-slash neighbour and the names differing from it only in case; every listed package is also looked up through text with 8 hostile sub-paths and through addresses derived by relative resolution with 6 climbing operands. 264 documents kept by coverage-guided fuzzing campaigns are replayed; thorough adds a native go test -fuzz run of OpenDir with the lookup assertions. Round 6/7: relative reverse lookups after the working directory moved since OpenDir; path tails that are not in a Unicode normal form. Round 9: every foreign path is asked twice, then a neighbour in the same directory, then once more.",
          "The harness learns the document's directory names by decoding it leniently itself.",
          "DESIGN.md §5 C18"),
  "C08": ("exploration",
@@ -46,12 +46,12 @@ CHECKS = {
          "DESIGN.md §5 C17"),
  "C16": ("exploration",
          "runtime differential monitor (decoded slug vs baseline) over spellings / working directories / symlinked roots / call histories, and the Go race detector over concurrent Pack calls",
-         "For every generated tree and option set the decoded entry list of Pack by the absolute clean path is compared with the lists obtained under 23 variations of spelling, working directory, route through symlinks and preceding calls; concurrent rounds (fresh race-instrumented process each, 8-16 goroutines behind a barrier, default-rule and negation-first rule files mixed) compare every output with a solo run and treat any race-detector report as a violation. Round 6/7: 27 variations incl. a symlinked parent that pointed elsewhere at an earlier Pack and a root link with '..' in its target reached through a symlinked directory; in the unshared concurrent rounds every other goroutine uses the package-level Pack with alternating dereference flag. Round 8: a third of the variation cases carry a link that only a relative AllowSymlinkTarget entry permits.",
+         "For every generated tree and option set the decoded entry list of Pack by the absolute clean path is compared with the lists obtained under 23 variations of spelling, working directory, route through symlinks and preceding calls; concurrent rounds (fresh race-instrumented process each, 8-16 goroutines behind a barrier, default-rule and negation-first rule files mixed) compare every output with a solo run and treat any race-detector report as a violation. Round 6/7: 27 variations incl. a symlinked parent that pointed elsewhere at an earlier Pack and a root link with '..' in its target reached through a symlinked directory; in the unshared concurrent rounds every other goroutine uses the package-level Pack with alternating dereference flag. Round 8: a third of the variation cases carry a link that only a relative AllowSymlinkTarget entry permits. Round 9: the reused Packer goes on to pack overlapping roots (parent, root, subdirectory, both directions) holding a link that is right inside the root and leaves the subdirectory through another link.",
          "Interleavings are those the scheduler produced; the baseline is produced by the same code in the same process.",
          "DESIGN.md §5 C16"),
  "C03": ("exploration",
          "runtime monitor: set of shipped files (real Pack in 3 modes + one-package bundle build) vs an independent segment-wise glob reference over a fixed path universe; exhaustive single rules and ordered pairs",
-         "For every generated rule file the files actually shipped by Pack (ignore on, ignore off, through a dereferenced external directory) and left in a bundle package directory are compared with the verdict of ref.Excluded (a regexp-free, segment-wise implementation of the documented rule language) for every path of the universe. Exhaustive over all single rules (3048) and all ordered pairs of a rule core; PRNG files with comments, blanks, padding and CRLF; every rule file ends, depending on its text, with LF, CR LF or no line terminator; a rule file that is a directory or has an over-long line leaves the built-in rules in force; all triples (A, B, A) of a 25-rule core; thorough adds ordered triples and the full 323-path universe. Round 7: the path universe also holds four paths of depth 4-5 with a .git directory below .terraform/modules.",
+         "For every generated rule file the files actually shipped by Pack (ignore on, ignore off, through a dereferenced external directory) and left in a bundle package directory are compared with the verdict of ref.Excluded (a regexp-free, segment-wise implementation of the documented rule language) for every path of the universe. Exhaustive over all single rules (3048) and all ordered pairs of a rule core; PRNG files with comments, blanks, padding and CRLF; every rule file ends, depending on its text, with LF, CR LF or no line terminator; a rule file that is a directory or has an over-long line leaves the built-in rules in force; all triples (A, B, A) of a 25-rule core; thorough adds ordered triples and the full 323-path universe. Round 7: the path universe also holds four paths of depth 4-5 with a .git directory below .terraform/modules. Round 9: rule files with 70 KiB to 17 MiB of comment or blank lines between the first and the last rules.",
          "Directory entries are not judged; when the dereferenced link's own path is excluded no claim is made about paths below it; undocumented pattern forms are excluded from the universe.",
          "DESIGN.md §5 C03"),
  "C15": ("exploration",
@@ -66,7 +66,7 @@ CHECKS = {
          "DESIGN.md §5 C02"),
  "C05": ("exploration",
          "runtime monitor: independent decode of the produced slug compared with the tree description and the physical target of every link; Unpack of the result; exhaustive link shapes x option sets",
-         "A world with a prefix-sharing sibling and canary-filled outside area gets links of 41 shapes at 3 depths (incl. links that stay inside as written but are led outside by another link); each is packed under {dereference} x {ignore} x 5 allow-lists (exhaustive for single links, PRNG for combinations). The slug is decoded with archive/tar and every entry is checked: no canary without dereferencing, no out-of-tree or root-climbing link stored without allow-list, refusal is an IllegalSlugError, dereferenced content equals the physical target, and Unpack accepts slugs from all-relative trees. Round 8: 46 shapes incl. absolute targets spelled with dot segments, repeated separators and detours.",
+         "A world with a prefix-sharing sibling and canary-filled outside area gets links of 41 shapes at 3 depths (incl. links that stay inside as written but are led outside by another link); each is packed under {dereference} x {ignore} x 5 allow-lists (exhaustive for single links, PRNG for combinations). The slug is decoded with archive/tar and every entry is checked: no canary without dereferencing, no out-of-tree or root-climbing link stored without allow-list, refusal is an IllegalSlugError, dereferenced content equals the physical target, and Unpack accepts slugs from all-relative trees. Round 8: 46 shapes incl. absolute targets spelled with dot segments, repeated separators and detours. Round 9: an outside directory whose inner links read as staying inside the slug but are led out of it by another inner link (47 shapes).",
          "Out-of-tree is decided component-wise on the place the target names; absolute in-tree links may be stored as links (pinned by the repository's tests).",
          "DESIGN.md §5 C05"),
  "C20": ("exploration",
